@@ -1090,6 +1090,8 @@ const float *vorbis_window(vorbis_dsp_state *v,int W){
   int hs=ci->halfrate_flag;
   private_state *b=v->backend_state;
 
-  if(b->window[W]-1<0)return NULL;
+  /* window[W] is 0 for 64-sample blocks, a perfectly good table index;
+     only half-rate decoding (never enabled for such streams) lowers it */
+  if(b->window[W]-hs<0)return NULL;
   return _vorbis_window_get(b->window[W]-hs);
 }
